@@ -17,6 +17,8 @@ from slimta.queue import Queue
 from slimta.queue.dict import DictStorage
 from slimta.envelope import Envelope
 from slimta.relay import Relay, PermanentRelayError, TransientRelayError
+import slimta.relay.pipe as pipe_mod
+from slimta.relay.pipe import PipeRelay
 from slimta.smtp.reply import Reply
 
 
@@ -190,12 +192,10 @@ class TraceStore(object):
         return self.inner.get_info()
 
 
-class StubRelay(Relay):
-    def __init__(self, h):
-        super(StubRelay, self).__init__()
-        self.h = h
+class _RelayBook(object):
+    """bookkeeping shared by the stub relay and the real PipeRelay driven by scripted processes"""
 
-    def attempt(self, envelope, attempts):
+    def _begin(self, envelope, attempts):
         h = self.h
         mid = envelope._vid
         rc = [h.rnum(r) for r in envelope.recipients]
@@ -214,6 +214,17 @@ class StubRelay(Relay):
         h.inflight[mid] -= 1
         rec['end'] = h.clock
         rec['outcome'] = out
+        return mid, rc, out
+
+
+class StubRelay(_RelayBook, Relay):
+    def __init__(self, h):
+        Relay.__init__(self)
+        self.h = h
+
+    def attempt(self, envelope, attempts):
+        h = self.h
+        mid, rc, out = self._begin(envelope, attempts)
         kind = out[0]
         if kind == 'ok':
             h.note_settled(mid, rc, 'deliv')
@@ -250,6 +261,100 @@ class StubRelay(Relay):
         raise AssertionError(out)
 
 
+class _FakeProc(object):
+    def __init__(self, spec):
+        self.returncode = None
+        self.pid = 4242
+        self._spec = spec
+
+    def communicate(self, stdin=None):
+        self.returncode, out, err = self._spec
+        return out, err
+
+
+class _FakeSubprocess(object):
+    """stands in for the `subprocess` module inside slimta.relay.pipe: each Popen() takes the next
+    scripted (exit status, stdout, stderr); the process itself is the ground truth of the delivery"""
+    PIPE = -1
+
+    def __init__(self):
+        self.script = []
+        self.ran = []
+
+    def Popen(self, args, **kw):
+        spec = self.script.pop(0)
+        self.ran.append((list(args), spec))
+        if spec == 'oserror':
+            raise OSError(2, 'No such file or directory')
+        return _FakeProc(spec)
+
+
+# what the external command did, by scripted outcome.  A delivery happened iff the process exited 0;
+# death by signal (negative status) and every other non-zero status is a failure, permanent only when
+# the output starts with a 5.x.x code (PipeRelay.raise_error's documented contract).
+PIPE_TEMP = [(75, b'', b'4.2.0 mailbox busy\n'), (-9, b'', b''), (1, b'deferred\n', b''), (-15, b'', b'terminated\n'), (255, b'', b'')]
+PIPE_PERM = [(1, b'5.1.1 no such user\n', b''), (-6, b'5.3.0 filter aborted\n', b''), (67, b'', b'5.1.1 unknown\n')]
+
+
+class ScriptedPipeRelay(_RelayBook, PipeRelay):
+    """the REAL slimta.relay.pipe.PipeRelay; only subprocess.Popen is scripted.  The oracle's ground
+    truth is what the processes did, not what PipeRelay reports to the queue."""
+
+    def __init__(self, h, per_recipient):
+        PipeRelay.__init__(self, ['deliver', '{sender}', '{recipient}'])
+        self.h = h
+        self.per_recipient = per_recipient
+        self.fake = _FakeSubprocess()
+        self.nth = 0
+
+    def _spec(self, x):
+        self.nth += 1
+        if x == 'ok':
+            return (0, b'', b'')
+        if x == 'perm':
+            return PIPE_PERM[self.nth % len(PIPE_PERM)]
+        return PIPE_TEMP[self.nth % len(PIPE_TEMP)]
+
+    def attempt(self, envelope, attempts):
+        h = self.h
+        mid, rc, out = self._begin(envelope, attempts)
+        kind = out[0]
+        if kind in ('map', 'seq'):
+            res = ['temp' if x == 'junk' else x for x in out[1]]
+        else:
+            res = [kind] * len(rc)
+        if kind == 'other':
+            self.fake.script = ['oserror']
+            h.emit((2, mid, (3,)))
+        elif self.per_recipient:
+            self.fake.script = [self._spec(x) for x in res]
+            h.note_settled(mid, [r for r, x in zip(rc, res) if x == 'ok'], 'deliv')
+            h.note_settled(mid, [r for r, x in zip(rc, res) if x == 'perm'], 'fail')
+            h.emit((2, mid, (4, tuple(RES_CODE[x] for x in res))))
+        else:
+            x = res[0]
+            self.fake.script = [self._spec(x)]
+            if x == 'ok':
+                h.note_settled(mid, rc, 'deliv')
+            elif x == 'perm':
+                h.note_settled(mid, rc, 'fail')
+            h.emit((2, mid, ({'ok': 0, 'temp': 1, 'perm': 2}[x],)))
+        old = pipe_mod.subprocess
+        pipe_mod.subprocess = self.fake
+        try:
+            return PipeRelay.attempt(self, envelope, attempts)
+        except OSError:
+            raise
+        except (PermanentRelayError, TransientRelayError):
+            raise
+        except BaseException as exc:
+            if not isinstance(exc, Kill):
+                h.errors.append('ScriptedPipeRelay: %r' % (exc,))
+            raise
+        finally:
+            pipe_mod.subprocess = old
+
+
 class BounceRecorder(object):
     def __init__(self, h):
         self.h = h
@@ -260,7 +365,7 @@ class BounceRecorder(object):
 
 
 class QH(object):
-    def __init__(self, inner=None, start=True, store_pool=None, relay_pool=None):
+    def __init__(self, inner=None, start=True, store_pool=None, relay_pool=None, relay_kind=None):
         hub = gevent.get_hub()
         try:
             hub.exception_stream = None
@@ -295,7 +400,10 @@ class QH(object):
         self.errors = []
         self.inner = inner if inner is not None else DictStorage()
         self.store = TraceStore(self, self.inner)
-        self.relay = StubRelay(self)
+        if relay_kind in ('pipe', 'pipe1'):
+            self.relay = ScriptedPipeRelay(self, relay_kind == 'pipe')
+        else:
+            self.relay = StubRelay(self)
         self.bq = BounceRecorder(self)
         self._old_time = Q.time
         Q.time = _VTime(self)
@@ -461,6 +569,7 @@ class QH(object):
 
     def act_enqueue(self, sender, rcpts):
         env = Envelope(sender, ['r%d@example.com' % r for r in rcpts])
+        env.parse(b'From: sender@example.com\r\nSubject: queue harness\r\n\r\nbody\r\n')
 
         def run():
             try:
@@ -609,7 +718,7 @@ class Run(object):
         self.script = list(script) if script is not None else None
         self.choices = []
         inner, self.cleanup = make_backend(cfg.get('backend', 'dict'))
-        self.h = QH(inner=inner, relay_pool=cfg.get('relay_pool'))
+        self.h = QH(inner=inner, relay_pool=cfg.get('relay_pool'), relay_kind=cfg.get('relay'))
         self.msgs = 0
         self.flush_epoch = 0
         self.fair = True           # no announcement raced an enqueue or a pending remove
@@ -813,8 +922,11 @@ def explore(ctx, props, n_random, steps, cfgs):
             if 'c01' in props:
                 check_final(ctx, run, dict(schedule=list(run.choices), cfg=cfg, events=run.h.trace))
             oracle(ctx, run, label, props)
+            if run.h.errors:
+                raise RuntimeError('queue harness fault (not a property verdict): %r' % run.h.errors[:3])
             compare_with_model(ctx, run.h, dict(seed=sub, cfg=cfg, choices=run.choices))
             total_marks += len(run.h.marks)
+            ctx.count('relay:%s' % cfg.get('relay', 'stub'))
             kinds = set(e[0] for e in run.h.trace)
             ctx.evaluated(('run', sub, tuple(sorted(cfg.items()))), nontrivial=(len(run.h.attempts) >= 2))
             ctx.count('events', len(run.h.trace))
